@@ -92,12 +92,14 @@ namespace vd
     static std::atomic<int> g_inside{ 0 };
     static std::atomic<int> g_max_inside{ 0 };
     static std::atomic<long> g_instr{ 0 };
+    static std::atomic<long> g_turns{ 0 };      // scheduler turns (slice_begin events) of the executor
     static thread_local bool t_evaluating = false;
     static void hook_point(const char* t) { if (S && sched::me >= 0) S->point(t); }
     static void hook_event(verif::event k, runtime& rt)
     {
         if (k == verif::event::guard_enter) { int v = ++g_inside; int m = g_max_inside.load(); while (v > m && !g_max_inside.compare_exchange_weak(m, v)) {} }
         else if (k == verif::event::guard_leave) --g_inside;
+        else if (k == verif::event::slice_begin) ++g_turns;
         else if (k == verif::event::instruction_executed) { if (!t_evaluating) ++g_instr; }   // instructions of the evaluated expression are not the script's
     }
 
@@ -114,7 +116,7 @@ namespace vd
 
     struct obs
     {
-        int start_res = -9; std::vector<int> ctl_res; int final_state = -1; long instr = 0; std::vector<long> after_ok; int max_inside = 0;
+        int start_res = -9; std::vector<int> ctl_res; int final_state = -1; long instr = 0; std::vector<long> after_ok; std::vector<long> turns_after_ok; int max_inside = 0;
         size_t contexts = 0; int probe = -9; bool probe_ran = false; bool livelock = false; std::string eval_values;
         std::string key() const
         {
@@ -122,6 +124,8 @@ namespace vd
             for (int c : ctl_res) k += std::to_string(c) + ",";
             k += "|" + std::to_string(final_state) + "|" + std::to_string(instr) + "|";
             for (long a : after_ok) k += std::to_string(a) + ",";
+            k += "t";
+            for (long a : turns_after_ok) k += std::to_string(a) + ",";
             k += "|" + std::to_string(max_inside) + "|" + std::to_string(contexts) + "|" + std::to_string(probe) + (probe_ran ? "r" : "n") + "|" + eval_values;
             return k;
         }
@@ -131,7 +135,7 @@ namespace vd
     {
         std::unique_ptr<vm> v;
         std::string script; std::vector<std::string> ctl;
-        obs o; std::vector<long> instr_at; sched sc; std::atomic<bool> executor_inside{ false }; bool controlled = false;
+        obs o; std::vector<long> instr_at; std::vector<long> turns_at; sched sc; std::atomic<bool> executor_inside{ false }; bool controlled = false;
     };
     static obs run_control(const std::string& script, const std::vector<std::string>& ctl, std::vector<int> prefix, std::vector<sched::pt>& out_points, bool& divergence, bool controlled)
     {
@@ -146,10 +150,12 @@ namespace vd
         auto set = rt.parser_sqf().parse(rt, script, pi);
         auto ctx = rt.context_create().lock();
         ctx->push_frame({ rt.default_value_scope(), *set });
-        g_inside = 0; g_max_inside = 0; g_instr = 0;
+        g_inside = 0; g_max_inside = 0; g_instr = 0; g_turns = 0;
         rs->o.ctl_res.assign(ctl.size(), -9);
         rs->o.after_ok.assign(ctl.size(), -1);
+        rs->o.turns_after_ok.assign(ctl.size(), -1);
         rs->instr_at.assign(ctl.size(), -1);
+        rs->turns_at.assign(ctl.size(), -1);
         if (controlled) { rs->sc.reset(2, prefix); S = &rs->sc; }
         auto exec_body = [rs] {
             auto& rt = *rs->v->rt;
@@ -176,7 +182,7 @@ namespace vd
                 else
                 {
                     rs->o.ctl_res[i] = (int)rt.execute(act_of(rs->ctl[i]));
-                    if ((rs->ctl[i] == "stop" || rs->ctl[i] == "abort") && rs->o.ctl_res[i] == 0) rs->instr_at[i] = g_instr;
+                    if ((rs->ctl[i] == "stop" || rs->ctl[i] == "abort") && rs->o.ctl_res[i] == 0) { rs->instr_at[i] = g_instr; rs->turns_at[i] = g_turns; }
                 }
             }
             if (rs->controlled) rs->sc.thread_end();
@@ -200,7 +206,7 @@ namespace vd
         obs& o = rs->o;
         o.final_state = (int)rt.runtime_state();
         o.instr = g_instr;
-        for (size_t i = 0; i < ctl.size(); i++) if (rs->instr_at[i] >= 0) o.after_ok[i] = g_instr - rs->instr_at[i];
+        for (size_t i = 0; i < ctl.size(); i++) if (rs->instr_at[i] >= 0) { o.after_ok[i] = g_instr - rs->instr_at[i]; o.turns_after_ok[i] = g_turns - rs->turns_at[i]; }
         o.max_inside = g_max_inside;
         o.contexts = rt.context_end() - rt.context_begin();
         // liveness probe: documented way back to empty, then a fresh script must run to completion
@@ -248,6 +254,8 @@ namespace vd
             for (size_t i = 0; i < ctl.size(); i++)
             {
                 if (o.after_ok[i] > 2) add("stop-not-effective", ctl[i] + " returned ok but the executor ran " + std::to_string(o.after_ok[i]) + " more instructions");
+                // ... and when no script has an instruction to run (all asleep) within a bounded number of scheduler turns
+                if (o.turns_after_ok[i] > 3) add("stop-not-effective-while-asleep", ctl[i] + " returned ok but the executor went through " + std::to_string(o.turns_after_ok[i]) + " more scheduler turns");
                 int rc = o.ctl_res[i];
                 if (ctl[i] != "eval" && rc != 0 && rc != 1 && !((ctl[i] == "start" || ctl[i] == "assembly_step") && (rc == -1 || rc == 2))) add("undocumented-return-" + ctl[i], ctl[i] + " returned " + std::to_string(rc));
                 if (ctl[i] == "eval" && rc == 0 && o.eval_values.find("2;") == std::string::npos) add("evaluate-wrong-value", "evaluate_expression(1 + 1) succeeded with " + o.eval_values);
@@ -398,6 +406,8 @@ namespace vd
         auto res = js::val::object();
         if (what == "control")
         {
+            // sleeping scripts need time to pass: every clock query advances the virtual clock by this much
+            if (req.has("tick_us")) g_clock.tick_us = req["tick_us"].i64(0);
             verif::g_hooks.point = hook_point; verif::g_hooks.on_event = hook_event; verif::g_hooks.slice = 0;
             explorer ex;
             ex.script = req["script"].str();
